@@ -78,6 +78,9 @@ func (v verificationMethodValidator) verifyThumbprint(method *did.VerificationMe
 	if err != nil {
 		return fmt.Errorf("unable to get JWK: %w", err)
 	}
+	// The key ID must equal the thumbprint calculated here: ignore a "kid" supplied inside publicKeyJwk,
+	// otherwise AssignKeyID keeps it and the check would compare the ID with a value chosen by the document's author.
+	_ = keyAsJWK.Remove(jwk.KeyIDKey)
 	_ = jwk.AssignKeyID(keyAsJWK)
 	if keyAsJWK.KeyID() != method.ID.Fragment {
 		return errors.New("key thumbprint does not match ID")
